@@ -213,7 +213,7 @@ CHECKS = {
     "C05": generic_tracegen_check("C05", MC_SAFETY, edges=True),
     "C06": generic_tracegen_check("C06", MC_RUNS_ONLY),
     "C10": generic_tracegen_check("C10", MC_RUNS_ONLY, edges=True),
-    "C11": generic_tracegen_check("C11", MC_RUNS_ONLY + ["MC_Live"], edges=True),
+    "C11": generic_tracegen_check("C11", MC_RUNS_ONLY + ["MC_Live", "MC_LiveQuick"], edges=True),
     "C17": generic_tracegen_check("C17", MC_SAFETY, edges=True),
 }
 
@@ -267,7 +267,7 @@ def check_C09(tier_):
              "%s [%s]" % (f["why"], json.dumps(f.get("batch"))[:400]), {"record": f["record"], "batch": f.get("batch")}))
     tg = stages.tracegen_stage(tier_, tree_key())
     add_tracegen(res, tg, "C09")
-    add_mc(res, tier_, ["MC_RunQuick", "MC_RunThorough", "MC_Live"])
+    add_mc(res, tier_, ["MC_RunQuick", "MC_RunThorough", "MC_Live", "MC_LiveQuick"])
     res.assumptions = ["panic / abort / stack-overflow freedom is decided by execution (child processes under a watchdog); the specification contributes termination of the design (MC_Live under weak fairness) and the call/return protocol",
                        "harness built with debug-assertions and overflow-checks on"]
     return res
